@@ -1764,6 +1764,138 @@ func extractPriceCalls() []PriceCall {
 }
 
 // ---------------------------------------------------------------------------------------------
+// direct reads of a TWA record: `x, found := ….GetTwa(ctx, id)` — is the activity test that follows on the SAME variable?
+//   own       the first later statement that tests `.IsPriceActive` tests it on x (possibly among others)
+//   other     it tests `.IsPriceActive` of DIFFERENT variable(s) only (the slip `if !found || !twaOther.IsPriceActive`)
+//   untested  x is not activity-tested in its block (before x is assigned again)
+
+type TwaRead struct {
+	file, fn, v, asset, status, tested string
+	foundChecked                       bool
+	line                               int
+}
+
+func activityBases(n ast.Node) []string {
+	var out []string
+	ast.Inspect(n, func(x ast.Node) bool {
+		if se, ok := x.(*ast.SelectorExpr); ok && se.Sel.Name == "IsPriceActive" {
+			if id, ok := se.X.(*ast.Ident); ok {
+				out = append(out, id.Name)
+			} else {
+				out = append(out, "?")
+			}
+		}
+		return true
+	})
+	return out
+}
+
+func assignsIdent(st ast.Stmt, name string) bool {
+	as, ok := st.(*ast.AssignStmt)
+	if !ok {
+		return false
+	}
+	for _, l := range as.Lhs {
+		if id, ok := l.(*ast.Ident); ok && id.Name == name {
+			return true
+		}
+	}
+	return false
+}
+
+func extractTwaReads() []TwaRead {
+	var out []TwaRead
+	var keys []FuncKey
+	for k := range index {
+		if k.pkg == "x/market/keeper" {
+			continue // the oracle module itself maintains the records
+		}
+		keys = append(keys, k)
+	}
+	sort.Slice(keys, func(i, j int) bool {
+		a, b := index[keys[i]], index[keys[j]]
+		if a.file != b.file {
+			return a.file < b.file
+		}
+		return line(a.decl) < line(b.decl)
+	})
+	for _, k := range keys {
+		fi := index[k]
+		visit := func(list []ast.Stmt) {
+			for i, st := range list {
+				as, ok := st.(*ast.AssignStmt)
+				if !ok || len(as.Rhs) != 1 || len(as.Lhs) < 1 {
+					continue
+				}
+				call, ok := as.Rhs[0].(*ast.CallExpr)
+				if !ok {
+					continue
+				}
+				se, ok := call.Fun.(*ast.SelectorExpr)
+				if !ok || se.Sel.Name != "GetTwa" {
+					continue
+				}
+				v, ok := as.Lhs[0].(*ast.Ident)
+				if !ok {
+					continue
+				}
+				r := TwaRead{file: fi.file, fn: fi.key.name, v: v.Name, line: line(call), status: "untested"}
+				if len(call.Args) >= 2 {
+					r.asset = src(call.Args[1])
+				}
+				foundVar := ""
+				if len(as.Lhs) > 1 {
+					if id, ok := as.Lhs[1].(*ast.Ident); ok && id.Name != "_" {
+						foundVar = id.Name
+					}
+				}
+				for _, later := range list[i+1:] {
+					if foundVar != "" && !r.foundChecked {
+						if is, ok := later.(*ast.IfStmt); ok && mentionsIdent(is.Cond, foundVar) {
+							r.foundChecked = true
+						}
+					}
+					bases := activityBases(later)
+					if len(bases) > 0 {
+						own := false
+						for _, b := range bases {
+							if b == v.Name {
+								own = true
+							}
+						}
+						r.tested = strings.Join(bases, ",")
+						if own {
+							r.status = "own"
+						} else {
+							r.status = "other"
+						}
+						break
+					}
+					if assignsIdent(later, v.Name) {
+						break
+					}
+					if foundVar != "" && assignsIdent(later, foundVar) && !r.foundChecked {
+						// `found` re-used by the next lookup before it was tested
+						break
+					}
+				}
+				out = append(out, r)
+			}
+		}
+		ast.Inspect(fi.decl.Body, func(n ast.Node) bool {
+			switch b := n.(type) {
+			case *ast.BlockStmt:
+				visit(b.List)
+			case *ast.CaseClause:
+				visit(b.Body)
+			}
+			return true
+		})
+	}
+	return out
+}
+
+// ---------------------------------------------------------------------------------------------
 // output
 
 func q(s string) string {
@@ -1802,6 +1934,7 @@ func main() {
 	ws, lists, listNames := extractWasm()
 	sw := extractSweeps()
 	pcs := extractPriceCalls()
+	trs := extractTwaReads()
 
 	var b strings.Builder
 	b.WriteString("/-! GENERATED by extract/guards from the comdex source tree — do not edit; regenerated on every run.\n")
@@ -1812,6 +1945,7 @@ func main() {
 	b.WriteString("structure WasmArm where\n  chain : String\n  list : String\n  idx : Nat\n  addr : String\n  deriving Repr, DecidableEq\n\n")
 	b.WriteString("structure WasmHandler where\n  variant : String\n  method : String\n  arms : List WasmArm\n  guardFirst : Bool\n  otherChainsOpen : Bool\n  line : Nat\n  deriving Repr\n\n")
 	b.WriteString("structure PriceCall where\n  file : String\n  fn : String\n  callee : String\n  asset : String\n  status : String\n  line : Nat\n  deriving Repr\n\n")
+	b.WriteString("structure TwaRead where\n  file : String\n  fn : String\n  var : String\n  asset : String\n  status : String\n  tested : String\n  foundChecked : Bool\n  line : Nat\n  deriving Repr\n\n")
 	b.WriteString("structure Sweep where\n  module : String\n  fn : String\n  found : Bool\n  action : String\n  conn : String\n  breaker : String\n  esm : String\n  wb : Bool\n  line : Nat\n  deriving Repr\n\n")
 	for _, h := range hs {
 		fmt.Fprintf(&b, "def h_%s_%s : Handler := { module := %s, name := %s, msgType := %s, signer := %s, file := %s, line := %d, items := [\n",
@@ -1895,6 +2029,15 @@ func main() {
 			sep = ""
 		}
 		fmt.Fprintf(&b, "  { file := %s, fn := %s, callee := %s, asset := %s, status := %s, line := %d }%s\n", q(c.file), q(c.fn), q(c.callee), q(c.asset), q(c.status), c.line, sep)
+	}
+	b.WriteString("]\n\n")
+	b.WriteString("/-- every direct `x, found := ….GetTwa(ctx, id)` outside the market module and the activity test that follows it -/\ndef twaReads : List TwaRead := [\n")
+	for i, c := range trs {
+		sep := ","
+		if i == len(trs)-1 {
+			sep = ""
+		}
+		fmt.Fprintf(&b, "  { file := %s, fn := %s, var := %s, asset := %s, status := %s, tested := %s, foundChecked := %s, line := %d }%s\n", q(c.file), q(c.fn), q(c.v), q(c.asset), q(c.status), q(c.tested), bl(c.foundChecked), c.line, sep)
 	}
 	b.WriteString("]\n\nend Comdex.Gen.Guards\n")
 	if *out == "" {
